@@ -39,21 +39,34 @@ def strip(d):
 
 
 def basename(name):
-    """Readable name: library names lose namespaces and template arguments."""
+    """Readable name: library names lose namespaces and the template arguments of their class,
+    but keep the template arguments of the function itself (holds_alternative<X> != <Y>)."""
     if not name:
         return name
     if name.startswith(('std::', '__gnu_cxx::')):
-        out = []
         depth = 0
-        for c in name:
+        last = 0
+        i = 0
+        while i < len(name):
+            c = name[i]
             if c == '<':
                 depth += 1
             elif c == '>':
                 depth -= 1
-            elif depth == 0:
-                out.append(c)
-        n = ''.join(out)
-        return n.rsplit('::', 1)[-1] if not n.startswith('std::operator') else n[5:]
+            elif depth == 0 and name.startswith('::', i):
+                last = i + 2
+                i += 1
+            i += 1
+        n = name[last:]
+        j = n.find('<', (len('operator') + 2) if n.startswith('operator') else 1)
+        if j > 0:
+            head = n[:j]
+            if head in ('holds_alternative', 'get', 'get_if'):
+                # the first template argument selects the alternative: keep it
+                arg = n[j + 1:].split(',')[0].rstrip('>')
+                return '%s<%s>' % (head, arg)
+            n = head
+        return n
     return name
 
 
